@@ -420,8 +420,17 @@ static int SE_REQUIRE_PROGRESS; /* C10: a call with end_of_stream, all input off
 
 static struct isal_hufftables *SE_HUFFTABLES; /* optional: table installed right after init (type SE_HUFF_TYPE) */
 static int SE_HUFF_TYPE;
+static struct isal_zstream *DST_E, *DST_S;
+static unsigned se_dst_flip;
 static void def_reset(int flush_budget)
 {
+	/* the stream object alternates between a mapping that ENDS at an inaccessible page and one that STARTS right behind one: the codec
+	 * keeps its history inside the object, and a look-back that strays in front of it must fault instead of reading neighbouring memory */
+	if (!DST_E)
+		DST_E = DST;
+	if (!DST_S)
+		DST_S = g_persist(sizeof *DST, G_START);
+	DST = (se_dst_flip++ & 1) ? DST_S : DST_E;
 	isal_deflate_init(DST);
 	DST->level = DLEVEL;
 	DST->level_buf = DLEVEL ? DLB : NULL;
@@ -731,6 +740,50 @@ static int def_finish_generously(const struct ex_model *m, int horizon)
 	v_violation(key, "ZSTATE_END not reached within %d generous calls; reached by [%s]", horizon, m ? ex_path_str(m) : "");
 	nfail++;
 	return -1;
+}
+/* big-then-tiny histories on LONG inputs: one call is given a large piece of input but little output space (it returns with the
+ * output full, possibly with tokens and look-ahead state pending inside the codec), the next call presents only 0 / 1 / 7 / 300
+ * of the remaining bytes, with ample or tiny output space and any flush kind; then generous calls must finish the stream
+ * correctly. Level buffers of every named size. The usual per-call checks (bookkeeping, guard pages, flush points) apply. */
+static void def_big_then_tiny(const uint8_t *data, size_t len, const char *name, int level, int gz, int cpu, int lbi)
+{
+	/* first pieces below and ABOVE the size of the internal staging buffer (65824): above it the call cannot take everything in */
+	static const int as[] = { 2000, 20000, 70000, 100000 }, os[] = { 1, 1000, 4000 }, bs[] = { 0, 1, 7, 300 }, bos[] = { -1, 100 };
+	static uint8_t *biglb;
+	static const char *lbn[] = { "MIN", "SMALL", "MEDIUM", "DEFAULT" };
+	if (!DST)
+		DST = g_persist(sizeof *DST, G_END);
+	if (!biglb)
+		biglb = g_persist(ISAL_DEF_LVL3_DEFAULT, G_END);
+	uint8_t *keep = DLB;
+	uint32_t named[4] = { lvl_min[level], lvl_small[level], lvl_medium[level], lvl_default[level] };
+	DLB = biglb;
+	DIN = data; DINLEN = len; DLEVEL = level; DGZ = gz; DLBS = named[lbi];
+	cpu_set_level(cpu);
+	for (int ai = 0; ai < 4; ai++)
+		for (int oi = 0; oi < 3; oi++)
+			for (int bi = 0; bi < 4; bi++)
+				for (int boi = 0; boi < 2; boi++)
+					for (int fl = 0; fl < 3; fl++) {
+						if (nfail > 20)
+							goto done;
+						snprintf(ctxdesc, sizeof ctxdesc, "big-then-tiny input=%s:%zu level=%d level_buf=%s wrapper=%s cpu=%s call1(in=%d,out=%d) call2(in=%d,out=%d,%s)", name, len, level, lbn[lbi], gz_name[gz],
+							 cpu_level_name[cpu], as[ai], os[oi], bs[bi], bos[boi], flush_name[fl]);
+						g_strict_free = 1;
+						def_reset(4);
+						ex_depth = 0;
+						int r = def_call(as[ai], os[oi], NO_FLUSH, 0, NULL);
+						if (r == EX_NEXT)
+							r = def_call(bs[bi], bos[boi], fl, 0, NULL);
+						if (r == EX_NEXT || r == EX_SKIP)
+							def_finish_generously(NULL, 16);
+						g_strict_free = 0;
+						v_count("big_then_tiny_runs", 1);
+						v_eval();
+					}
+done:
+	DLB = keep;
+	v_nontrivial(v_hash(ctxdesc, strlen(ctxdesc), 33));
 }
 static uint8_t *def_tmpimg;
 static size_t def_tmpcap;
